@@ -119,13 +119,15 @@ def _base(rng, family, data, splits=None, extra=None):
 ODD_KINDS = ["data_after_response", "connect_no_path", "non_ascii_path", "invalid_utf8_path", "priority_idle_flood",
              "priority_before_headers", "rst_closed", "wu_closed", "continuation", "padded", "req_trailers",
              "ext_connect_no_protocol", "zero_data_flood", "settings_churn", "ping_flood", "huge_header",
-             "empty_header_value", "authority_non_utf8", "dup_pseudo", "rst_open", "data_on_idle_rst", "non_ascii_method", "late_data_flood"]
+             "empty_header_value", "authority_non_utf8", "dup_pseudo", "rst_open", "data_on_idle_rst", "non_ascii_method", "late_data_flood",
+             "frames_on_refused_connect", "data_during_ws_rejection"]
 
 # kinds the statement names as "merely unusual or invalid at the HTTP level": siblings must complete
 STREAM_LEVEL = {"data_after_response", "connect_no_path", "non_ascii_path", "invalid_utf8_path", "rst_closed",
                 "wu_closed", "continuation", "padded", "req_trailers", "priority_before_headers",
                 "empty_header_value", "rst_open", "ping_flood", "settings_churn", "huge_header",
-                "priority_idle_flood", "zero_data_flood", "authority_non_utf8", "non_ascii_method", "late_data_flood"}
+                "priority_idle_flood", "zero_data_flood", "authority_non_utf8", "non_ascii_method", "late_data_flood",
+                "frames_on_refused_connect", "data_during_ws_rejection"}
 
 
 def _case_grammar(rng, n, kind=None):
@@ -200,6 +202,27 @@ def _case_grammar(rng, n, kind=None):
         extra_uploads = late
     elif kind == "connect_no_path":
         steps.append(["feed", fb.headers(odd_sid, [(b":method", b"CONNECT"), (b":authority", b"h.example:443")], end_stream=False)])
+    elif kind == "frames_on_refused_connect":
+        # a CONNECT the server refuses (no :path -> 400; WebSocket version it does not speak -> 400) that the client leaves open,
+        # then frames that are legal on a half-closed(remote) stream
+        if rng.random() < 0.5:
+            hd = [(b":method", b"CONNECT"), (b":authority", b"h.example:443")]
+        else:
+            hd = [(b":method", b"CONNECT"), (b":protocol", b"websocket"), (b":scheme", b"http"), (b":path", b"/ws"), (b":authority", b"h.example"),
+                  (b"sec-websocket-version", rng.choice([b"12", b"8"]))]
+        steps.append(["feed", fb.headers(odd_sid, hd, end_stream=False)])
+        steps.append(["settle"])
+        follow = rng.choice(["wu", "wu", "data", "wu+data", "priority", "rst"])
+        b = b""
+        if "wu" in follow:
+            b += fb.window_update(odd_sid, rng.choice([1, 1000, 65535]))
+        if "data" in follow:
+            b += fb.data(odd_sid, b"x" * rng.choice([0, 1, 100]), end_stream=rng.random() < 0.5)
+        if follow == "priority":
+            b += fb.priority(odd_sid, dep=0, weight=10)
+        if follow == "rst":
+            b += fb.rst(odd_sid, 8)
+        steps.append(["feed", b])
     elif kind == "non_ascii_path":
         steps.append(["feed", fb.headers(odd_sid, [(b":method", b"GET"), (b":scheme", b"http"),
                                                    (b":path", "/café".encode("utf-8")), (b":authority", b"h.example")], end_stream=True)])
@@ -277,6 +300,15 @@ def _case_grammar(rng, n, kind=None):
     elif kind == "data_on_idle_rst":
         steps.append(["feed", fb.data(odd_sid, b"zz")])
         expect_conn_error = True
+    elif kind == "data_during_ws_rejection":
+        # extended CONNECT whose application is half-way through an HTTP rejection (head and part of the body sent) when the client,
+        # which cannot know, sends WebSocket data on the stream
+        hd = [(b":method", b"CONNECT"), (b":protocol", b"websocket"), (b":scheme", b"http"), (b":path", b"/wsrej"), (b":authority", b"h.example"),
+              (b"sec-websocket-version", b"13")]
+        steps.append(["feed", fb.headers(odd_sid, hd, end_stream=False)])
+        steps.append(["settle"])
+        steps.append(["feed", fb.data(odd_sid, ws.message_frames(ws.OP_TEXT, b"hello"), end_stream=rng.random() < 0.3)])
+        steps.append(["settle"])
     for _ in range(nsib - sib_before):
         steps.append(["feed", sibling()])
     steps.append(["settle"])
@@ -288,7 +320,9 @@ def _case_grammar(rng, n, kind=None):
     if kind == "authority_non_utf8" or rng.random() < 0.2:
         config["server_names"] = ["h.example"]
     apps = {"default": OK_APP, "websocket": WS_APP, "by_tag": by_tag,
-            "by_path": {"/early": [["respond", 200, [], b"early"]]}}
+            "by_path": {"/early": [["respond", 200, [], b"early"]],
+                        "/wsrej": [["recv"], ["try_send", {"type": "websocket.http.response.start", "status": 401, "headers": [(b"x-why", b"auth")]}],
+                                   ["try_send", {"type": "websocket.http.response.body", "body": b"par", "more_body": True}], ["wait", "never"]]}}
     return {
         "family": "h2.grammar." + kind, "backends": ["asyncio", "trio"], "config": config, "conn": {},
         "apps": apps, "client": steps, "reactor": reactor,
@@ -297,7 +331,15 @@ def _case_grammar(rng, n, kind=None):
     }
 
 
+TLS_HOSTILE = ["plaintext_http", "random_bytes", "connect_close", "clienthello_then_close", "tls_then_garbage", "tls_alpn_h2_then_http1",
+               "tls_half_close"]
+
+
 def gen(rng, tier):
+    for be in ("asyncio", "trio"):
+        for rep in range(1 if tier == "quick" else 4):
+            for kind in TLS_HOSTILE:
+                yield {"family": "tls.hostile", "kind": "tls-hostile", "backend": be, "hostile": kind, "rep": rep, "seed": rng.randrange(1 << 30)}
     n = N_CASES[tier]
     prev = {"h1": b"GET / HTTP/1.1\r\nHost: a\r\n\r\n", "h2": MAGIC, "ws": b"GET / HTTP/1.1\r\n\r\n"}
     for i in range(n):
@@ -370,7 +412,118 @@ def gen(rng, tier):
             yield _case_grammar(rng, i)
 
 
+def run_one(case, tally):
+    """Tier A through the default executor; the hostile-TLS family runs the real serve() with a real ssl context."""
+    import sys
+
+    from ..runner import default_run_one
+
+    if case.get("kind") != "tls-hostile":
+        return default_run_one(sys.modules[__name__], case, tally)
+    import os
+    import random
+    import socket
+    import ssl
+
+    from ..world.realnet import ServeHarness, recv_until
+
+    findings = []
+    be = case["backend"]
+    rng = random.Random(case["seed"])
+    assets = os.path.join(os.environ.get("HYPERCORN_SRC", "/repo/src"), "..", "tests", "assets")
+    if not os.path.exists(os.path.join(assets, "cert.pem")):
+        assets = "/repo/tests/assets"
+    apps = {"lifespan": [["recv"], ["send", {"type": "lifespan.startup.complete"}], ["recv"], ["send", {"type": "lifespan.shutdown.complete"}]],
+            "default": [["recv_until_end"], ["respond", 200, [(b"content-length", b"2")], b"ok"]]}
+    h = ServeHarness(be, {"certfile": os.path.join(assets, "cert.pem"), "keyfile": os.path.join(assets, "key.pem"),
+                          "graceful_timeout": 0.5, "shutdown_timeout": 0.5, "keep_alive_timeout": 2.0, "ssl_handshake_timeout": 1.0}, apps)
+
+    def tls_client(alpn=None):
+        ctx = ssl.SSLContext(ssl.PROTOCOL_TLS_CLIENT)
+        ctx.check_hostname = False
+        ctx.verify_mode = ssl.CERT_NONE
+        if alpn:
+            ctx.set_alpn_protocols(alpn)
+        raw = socket.create_connection((h.host, h.port), timeout=2.0)
+        return ctx.wrap_socket(raw, server_hostname="localhost")
+
+    good = None
+    try:
+        h.start()
+        h.wait_event(lambda e: e[2] == "app" and e[3] == "send.", 3.0)
+        h.wait_ready()
+        kind = case["hostile"]
+        for _ in range(3):
+            try:
+                if kind in ("plaintext_http", "random_bytes", "connect_close", "clienthello_then_close"):
+                    s = socket.create_connection((h.host, h.port), timeout=1.0)
+                    if kind == "plaintext_http":
+                        s.sendall(b"GET / HTTP/1.1\r\nHost: h\r\n\r\n")
+                        recv_until(s, timeout=0.3)
+                    elif kind == "random_bytes":
+                        s.sendall(bytes(rng.randrange(256) for _ in range(rng.choice([1, 50, 600]))))
+                        recv_until(s, timeout=0.3)
+                    elif kind == "clienthello_then_close":
+                        s.sendall(bytes.fromhex("16030100c8010000c40303") + bytes(rng.randrange(256) for _ in range(40)))
+                    s.close()
+                else:
+                    t = tls_client(["h2", "http/1.1"] if kind == "tls_alpn_h2_then_http1" else None)
+                    t.settimeout(1.0)
+                    if kind == "tls_then_garbage":
+                        t.sendall(bytes(rng.randrange(256) for _ in range(300)))
+                        recv_until(t, timeout=0.3)
+                    elif kind == "tls_alpn_h2_then_http1":
+                        t.sendall(b"GET / HTTP/1.1\r\nHost: h\r\n\r\n")  # negotiated h2, speaks HTTP/1
+                        recv_until(t, timeout=0.3)
+                    elif kind == "tls_half_close":
+                        t.sendall(b"GET /half HTTP/1.1\r\nHost: h\r\n\r\n")
+                        try:
+                            t.shutdown(socket.SHUT_WR)  # TCP half-close without close_notify
+                        except OSError:
+                            pass
+                        recv_until(t, timeout=0.5)
+                    t.close()
+            except (OSError, ssl.SSLError):
+                pass
+        # the server must still serve a well-behaved client
+        try:
+            t = tls_client()
+            t.settimeout(2.0)
+            t.sendall(b"GET /after HTTP/1.1\r\nHost: h\r\n\r\n")
+            good = recv_until(t, b"ok", timeout=2.0)
+            t.close()
+        except (OSError, ssl.SSLError) as e:
+            good = repr(e).encode()
+        alive = not h.done.is_set()
+        h.trigger_shutdown()
+        returned = h.wait_done(5.0)
+    finally:
+        h.close()
+    for e in h.trace.events:
+        tally.events[e[2] + "." + e[3]] += 1
+    tally.clause("crash")
+    tally.clause("tls-hostile")
+    bad_logs = [e for e in h.trace.events if e[2] == "log" and e[4].get("level") in ("ERROR", "CRITICAL")]
+    loop_exc = [e for e in h.trace.events if e[2] == "srv" and e[3] == "loop-exception"]
+    if not alive or isinstance(h.result, tuple):
+        findings.append({"clause": "crash", "sig": "C04.tls/server-died/%s/%s" % (case["hostile"], be), "backend": be,
+                         "detail": "serve() ended after hostile TLS-port traffic: %r" % (h.result,)})
+    if not (good or b"").startswith(b"HTTP/1.1 200"):
+        findings.append({"clause": "crash", "sig": "C04.tls/later-client-not-served/%s/%s" % (case["hostile"], be), "backend": be,
+                         "detail": "after %s a well-behaved TLS client got %r" % (case["hostile"], (good or b"")[:80])})
+    if bad_logs:
+        findings.append({"clause": "crash", "sig": "C04.tls/error-logged/%s/%s" % (case["hostile"], be), "backend": be,
+                         "detail": "hostile TLS-port traffic produced an error-level log record (an internal error): %r" % (str(bad_logs[0][4])[:400],)})
+    if loop_exc:
+        tally.notes["event-loop-exception-handler:%s:%s" % (be, str(loop_exc[0][4].get("text"))[:60])] += 1
+    if not returned:
+        tally.inconclusive["serve-did-not-return"] += 1
+    return findings, [None]
+
+
 def nontrivial(case, obs):
+    if obs is None:
+        return True
     return obs.trace is not None and any(e[2] == "net" and e[3] == "read" for e in obs.trace.events)
 
 
